@@ -169,6 +169,85 @@ def data_item_values_sweep():
     return tried, diffs
 
 
+def nested_list_values_sweep():
+    """Every data item that admits a list (SV, V, DVVAL, ECV ...): list values that themselves contain lists, to depth 3, built as typed
+    values, compared with the E5 bytes written out here by hand, decoded by a fresh instance and encoded again."""
+    import secsgem.secs.data_items as di
+    import secsgem.secs.variables as var
+    from secsgem.secs.variables.dynamic import ANYVALUE
+
+    def e5(tree):     # tree: int (U1) | str (A) | list
+        if isinstance(tree, list):
+            body = b"".join(e5(k) for k in tree)
+            return bytes([0x01, len(tree)]) + body
+        if isinstance(tree, str):
+            return bytes([0x41, len(tree)]) + tree.encode("ascii")
+        return bytes([0xA5, 1, tree])
+
+    def typed(tree):
+        if isinstance(tree, list):
+            return var.Array(ANYVALUE, [typed(k) for k in tree])
+        return var.String(tree) if isinstance(tree, str) else var.U1(tree)
+
+    trees = [[], [[]], [[], []], [[5]], [5, [6, "x"]], [[[7]]], [[[]], "ab", [1, [2, [3]]]], [["a", ["b"]], []]]
+    classes = [c for c in vars(di).values() if isinstance(c, type) and issubclass(c, di.DataItemBase) and getattr(c, "__type__", None) is var.Dynamic
+               and var.Array in (getattr(c, "__allowedtypes__", None) or [])]
+    problems, tried = [], 0
+    for cls in classes:
+        for tree in trees:
+            tried += 1
+            want = e5(tree)
+            try:
+                enc = cls(typed(tree)).encode()
+                back = cls()
+                end = back.decode(want)
+                again = back.encode()
+                ok = enc == want and again == want and end == len(want)
+                got = {"encoded": enc.hex(), "decoded_and_encoded_again": again.hex()}
+            except Exception as exc:  # noqa: BLE001
+                ok, got = False, {"raised": f"{type(exc).__name__}: {exc}"[:160]}
+            if not ok and len(problems) < 5:
+                problems.append({"data_item": cls.__name__, "value": repr(tree), "e5_bytes": want.hex(), **got})
+    return tried, problems, [c.__name__ for c in classes]
+
+
+def container_isolation():
+    """settings.streams_functions.update(...) is the documented way to replace or add a function FOR ONE HANDLER: a container made
+    afterwards still finds every catalogued function, and only those."""
+    import secsgem.secs
+    from secsgem.secs.functions import StreamsFunctions
+
+    class Replaced(secsgem.secs.SecsStreamFunction):
+        _stream, _function = 1, 12
+        _data_format = "< MDLN >"
+        _to_host = _to_equipment = True
+        _has_reply = _is_reply_required = _is_multi_block = False
+
+    class Added(secsgem.secs.SecsStreamFunction):
+        _stream, _function = 99, 1
+        _data_format = "< MDLN >"
+        _to_host = _to_equipment = True
+        _has_reply = _is_reply_required = _is_multi_block = False
+
+    before = {(c._stream, c._function): c for c in functions()}
+    shipped = list(getattr(F, "secs_streams_functions", []))
+    mine = StreamsFunctions()
+    mine.update(Replaced)
+    mine.update(Added)
+    fresh = StreamsFunctions()
+    problems = []
+    if mine.function(1, 12) is not Replaced or mine.function(99, 1) is not Added:
+        problems.append("the updated container does not return the functions it was given")
+    for key, cls in before.items():
+        if fresh.function(*key) is not cls:
+            problems.append(f"a container created afterwards returns {fresh.function(*key)!r} for S{key[0]}F{key[1]} instead of the catalogued {cls.__name__}")
+    if fresh.function(99, 1) is not None:
+        problems.append("a container created afterwards knows S99F1, which was added to another container only")
+    if list(getattr(F, "secs_streams_functions", [])) != shipped:
+        problems.append("the shipped list secs_streams_functions itself was changed")
+    return problems
+
+
 def run(tier, replay=None):
     report = common.Report("C03", tier)
     if replay:
@@ -181,6 +260,16 @@ def run(tier, replay=None):
         report.violation({"kind": "broken-obligation", "obligation": "model Run/C03Run.vo does not build against the regenerated catalogue", "detail": log[-1500:], "also": proof.get("broken")}, False, tag="modelbuild")
         return report.finish()
     common.coq_make(["Proofs/CatalogueProofs.vo"])
+    iso = container_isolation()
+    report.coverage["container_isolation_problems"] = iso
+    if iso:
+        report.violation({"kind": "counterexample", "what": "replacing / adding a function in one StreamsFunctions container changed what another container (or the catalogue) finds by stream/function",
+                          "problems": iso[:5]}, True, tag="isolation")
+    ntried, nproblems, nclasses = nested_list_values_sweep()
+    report.coverage["nested_list_values"] = {"data_items_admitting_lists": nclasses, "combinations": ntried, "problems": len(nproblems)}
+    if nproblems:
+        report.violation({"kind": "counterexample", "what": "a list value containing lists, for a data item that admits lists, is not encoded as E5 prescribes / not decoded back", **nproblems[0],
+                          "count": len(nproblems)}, True, tag="nestedlist")
     tried, diffs = data_item_values_sweep()
     report.coverage["data_item_instances_as_values"] = {"combinations": tried, "different": len(diffs)}
     if diffs:
